@@ -12,6 +12,7 @@ Dom1(c, run) == c.doms[run.d]
 MetaGet(c, f, dflt) == IF f \in DOMAIN c.meta THEN c.meta[f] ELSE dflt
 IsOk(run) == run.res.k = "ok"
 LineW(ln) == SumW(ln)
+NoCtl(ln) == \A j \in 1..Len(ln) : ln[j][2] >= 0 \/ IsFrag(ln[j])
 OutCells(res) == Concat([i \in 1..Len(res.lines) |-> Plain(NoFrags(res.lines[i]))])
 RunsOf(c) == c.runs
 
@@ -19,7 +20,9 @@ RunsOf(c) == c.runs
 P_C02_run(run) ==
   LET cf == CfgOf(run.cfg) IN
   (IsOk(run) /\ ~cf.overflow /\ cf.wraplinks /\ run.w >= 1) =>
-     \A i \in 1..Len(run.res.lines) : LineW(run.res.lines[i]) <= run.w /\ run.res.sw[i] <= run.w
+     \* (by the widths of the characters, and by the width of the line as a string - except that a line into
+     \*  which a C0 / DEL control character was copied from an attribute value has no defined string width)
+     \A i \in 1..Len(run.res.lines) : LineW(run.res.lines[i]) <= run.w /\ (NoCtl(run.res.lines[i]) => run.res.sw[i] <= run.w)
 P_C02(c) == \A i \in 1..Len(c.runs) : P_C02_run(c.runs[i])
 
 (* ---- C03: document text preserved ------------------------------------------------------ *)
@@ -170,7 +173,7 @@ P_C11(c) ==
   /\ (HasRun(o) /\ o.res.k = "ok" /\ o.w >= 1 /\ ~HasTable(Dom1(c, o)) /\ CfgOf(o.cfg).wraplinks) =>
         LET cf == CfgOf(o.cfg)
             bound == Max2(o.w, PrefixDepthSeq(Dom1(c, o), o.cfg.ds) + Max2(cf.minwrap, 5)) IN
-        \A i \in 1..Len(o.res.lines) : o.res.sw[i] <= bound
+        \A i \in 1..Len(o.res.lines) : LineW(o.res.lines[i]) <= bound /\ (NoCtl(o.res.lines[i]) => o.res.sw[i] <= bound)
 
 (* ---- C13: output does not depend on the source formatting of collapsible whitespace -------- *)
 \* runs 1 and 2: the document and its rewrite r(d), same width and configuration
